@@ -264,6 +264,24 @@ func (s *Server) Revive() {
 	s.mu.Unlock()
 }
 
+// WaitNoConns waits until every client connection has been closed and drained (requests sent
+// before a client closed its socket are still processed first).  Returns false on timeout.
+func (s *Server) WaitNoConns(d time.Duration) bool {
+	deadline := time.Now().Add(d)
+	for {
+		s.mu.Lock()
+		n := len(s.conns)
+		s.mu.Unlock()
+		if n == 0 {
+			return true
+		}
+		if time.Now().After(deadline) {
+			return false
+		}
+		time.Sleep(200 * time.Microsecond)
+	}
+}
+
 // Seq returns the number of requests processed so far.
 func (s *Server) Seq() int64 {
 	s.mu.Lock()
